@@ -113,8 +113,12 @@ def apalache_inductive(spec, timeout=3000):
                         ("consecution", ["--init=IndInit", "--inv=IndInv", "--length=1"]),
                         ("implies-safety", ["--init=IndInit", "--inv=Safety", "--length=0"])):
         t0 = time.time()
+        tmpd = f"{OUT}/tmp-apalache-{spec}"
+        os.makedirs(tmpd, exist_ok=True)
         r = sh(["apalache-mc", "check", "--cinit=ConstInit", f"--out-dir={out_dir}"] + args + [spec],
-               cwd=f"{SPEC}/apalache", timeout=timeout)
+               cwd=f"{SPEC}/apalache", timeout=timeout,
+               env={"JAVA_TOOL_OPTIONS": f"-Djava.io.tmpdir={tmpd}"})
+        shutil.rmtree(tmpd, ignore_errors=True)
         ok = "The outcome is: NoError" in r.stdout
         if not ok:
             log("\n".join(r.stdout.splitlines()[-25:]))
